@@ -33,6 +33,9 @@ def run(tier):
                     cases.append({"cfg": c["cfg"], "run": {"mode": "meta", "neigh": nk, "model": im, "tgrid": True}})
                 if c["cfg"]["target"] == "point" and not c["cfg"]["verr"]:
                     cases.append({"cfg": c["cfg"], "run": {"mode": "exact", "neigh": nk, "model": im}})
+                # one error variance per variable, the second variable error free: exact for that variable
+                if c["cfg"]["target"] == "point" and c["cfg"]["verr"] and c["cfg"]["nvar"] == 2 and im != 2:
+                    cases.append({"cfg": c["cfg"], "run": {"mode": "exact", "neigh": nk, "model": im, "v2zero": True}})
     obs = kc.run_cases(ck, cases, "c02")
     counts = {}
     for o in obs:
@@ -60,6 +63,12 @@ def run(tier):
                     fails.append("weights-do-not-reproduce-the-constant")
         else:
             counts["exact"] = counts.get("exact", 0) + (1 if ob["n"] > 0 else 0)
+            if cs["run"].get("v2zero"):
+                counts["exact_error_free_variable"] = counts.get("exact_error_free_variable", 0) + (1 if ob["n"] > 0 else 0)
+            if ob.get("nfar"):
+                counts["exact_changing_neighbourhoods"] = counts.get("exact_changing_neighbourhoods", 0) + 1
+            if not ob.get("finite", True):
+                fails.append("finite-nonnegative")
             # nugget component: exactness holds for the data (zero distance counted on both sides)
             if ob["n"] > 0 and not (ob["exact_est"] <= 1e-8):
                 fails.append("exact_est")
@@ -70,7 +79,7 @@ def run(tier):
         if fails:
             ck.disagree({"kind": cs["run"]["mode"], "drift": cfg["drift"], "nvar": cfg["nvar"], "target": cfg["target"],
                          "neigh": cs["run"]["neigh"], "verr": cfg["verr"], "fails": sorted(fails)}, {"case": cs, "observed": ob})
-    for k in ("perm_est", "trans_est", "lin_est", "drift_est", "sumw", "exact"):
+    for k in ("perm_est", "trans_est", "lin_est", "drift_est", "sumw", "exact", "exact_error_free_variable", "exact_changing_neighbourhoods"):
         if counts.get(k, 0) == 0:
             raise Broken("vacuous: relation %s never evaluated" % k)
     ck.cov["traces_validated_against_impl"] = len(obs)
